@@ -147,6 +147,10 @@ type StepRec struct {
 	msg        *pb.Message
 }
 
+// Orig is the delivered message as it was on the wire (raft may rewrite the copy
+// it is handed, e.g. when it neutralises a configuration change).
+func (r *StepRec) Orig() *pb.Message { return r.msg }
+
 // Desc renders the delivered/dropped message.
 func (r *StepRec) Desc() string {
 	if r.msg == nil {
@@ -451,6 +455,16 @@ func (w *World) appApply(n *Node, rec *StepRec, ents []*pb.Entry) {
 		}
 		n.App.Chain = chainStep(n.App.Chain, e)
 		n.App.Applied = e.GetIndex()
+		if cs != nil {
+			// Like etcd (which builds the snapshot it sends from its current state),
+			// the application keeps the snapshot raft may send at least as new as the
+			// last membership change; otherwise a node added after the latest snapshot
+			// could never be caught up once the log is compacted (raft refuses
+			// snapshots whose membership does not contain the receiver).
+			if dv := diskView(n.Disk); n.App.Applied <= dv.Last() && n.App.Applied > dv.BaseIndex {
+				_, _ = n.Disk.CreateSnapshot(n.App.Applied, n.App.CS, snapData(n.App.Chain))
+			}
+		}
 	}
 }
 
